@@ -79,13 +79,14 @@ type Answer struct {
 
 // Want selects what is recorded.
 type Want struct {
-	Hash       int  // 0 none, 1 last wait of each call + after return, 2 every wait
-	Obs        int  // 0 none, 1 last wait only, 2 every wait
-	Screen     int  // 0 none, 1 last wait + after return, 2 every wait
-	Raw        bool // keep the raw output stream of each call
-	HistAfter  bool // record contents of all history sources after each call
-	SkipScreen bool // leave the emulator out of the state hash
-	From       int  // mode-2 recording starts at the wait that consumes answer index From
+	Hash        int  // 0 none, 1 last wait of each call + after return, 2 every wait
+	Obs         int  // 0 none, 1 last wait only, 2 every wait
+	Screen      int  // 0 none, 1 last wait + after return, 2 every wait
+	Raw         bool // keep the raw output stream of each call
+	HistAfter   bool // record contents of all history sources after each call
+	SkipScreen  bool // leave the emulator out of the state hash
+	From        int  // mode-2 recording starts at the wait that consumes answer index From
+	ScreenCheck bool // evaluate the screen oracle (vt.CheckInput) at every recorded main-loop wait and after the call
 }
 
 // Decision is the environment's answer at one read event of a scripted call: how many of
@@ -151,6 +152,9 @@ type Wait struct {
 	Hash   string   `json:",omitempty"`
 	Screen *vt.Snap `json:",omitempty"`
 	Log    int      // number of probe log entries so far
+	// ScreenVerdict is "" when the screen oracle holds (or was not evaluated), else "<class>: ..."
+	ScreenVerdict string   `json:",omitempty"`
+	Unknown       []string `json:",omitempty"` // escape sequences the emulator does not model
 }
 
 // LogEntry is one probe invocation.
